@@ -26,7 +26,7 @@ import tatsu.exceptions
 from MIP.geom.cells import get_cells, get_cell_importances
 from MIP.geom.parsegeom import get_ast
 from MIP.geom.transforms import to_cos
-from MIP.mip.datacard import expand_data_card
+from MIP.mip.datacard import expand_data_card, to_float
 from ...Progress import Progress
 from ...Volume.CellMCNP import CellMCNP
 from ...Volume.Lattice import parse_ranges, LatticeSpec
@@ -239,7 +239,7 @@ class ParseMCNPCell:
             if elt == self.BUT_MARK:
                 replace_imp = True
             elif elt.startswith('imp'):
-                importance = float(kw_list.pop())
+                importance = to_float(kw_list.pop())
                 if 'importance' in keywords and not replace_imp:
                     keywords['importance'] = max(importance,
                                                  keywords['importance'])
@@ -293,7 +293,7 @@ class ParseMCNPCell:
         else:
             fillid_u = int(float(first_arg))
         while kw_list and kw_list[-1][0] in '0123456789.+-':
-            fill_params.append(float(kw_list.pop()))
+            fill_params.append(to_float(kw_list.pop()))
         # now handle the case where the number of the
         # transformation was given instead of the transformation
         # parameters
@@ -345,15 +345,16 @@ class ParseMCNPCell:
             trcl_params = self.transforms[trid][:12]
             # no need to apply to_cos, MIP takes care of it
         elif len(trcl_params) == 3:
-            trcl_params = [float(param) for param in trcl_params[:12]]
+            trcl_params = [to_float(param) for param in trcl_params[:12]]
             trcl_params += [1., 0., 0.,
                             0., 1., 0.,
                             0., 0., 1.]
         elif '*' in elt:
-            trcl_params = [float(x) for x in trcl_params]
+            trcl_params = [to_float(x) for x in trcl_params]
             trcl_params[3:12] = list(map(to_cos, trcl_params[3:12]))
             trcl_params = normalize_transform(trcl_params)
         elif trcl_params:
             # this is the case where the transform parameters were given inline
-            trcl_params = normalize_transform([float(x) for x in trcl_params])
+            trcl_params = normalize_transform([to_float(x)
+                                               for x in trcl_params])
         return tuple(trcl_params)
